@@ -32,6 +32,7 @@ var tripperLifetime, tripperReapInterval = fclient.VerifTripperTimes()
 type rtOp struct {
 	dest  string
 	sleep time.Duration
+	get   string // TLS server name: get-or-create its transport directly
 }
 
 type rtTask struct {
@@ -86,13 +87,21 @@ type rtWorld struct {
 	tasks  map[string]*rtTask
 	used   map[string]time.Duration // TLS name -> last instant a round trip for it was started
 	active int
+	// handed: TLS name -> the transport last handed out for it and when
+	handed map[string]handedOut
+}
+
+type handedOut struct {
+	id   string
+	at   time.Duration
+	task string
 }
 
 func bodyTransports(r *sim.Run) {
 	t := r.T
 	s := sim.NewSched(r)
 	z := newZone()
-	w := &rtWorld{r: r, s: s, z: z, tasks: map[string]*rtTask{}, used: map[string]time.Duration{}}
+	w := &rtWorld{r: r, s: s, z: z, tasks: map[string]*rtTask{}, used: map[string]time.Duration{}, handed: map[string]handedOut{}}
 	w.n = newSimNet(r, z)
 	hosts := map[string][]string{
 		"t0.example": {"203.0.113.7"},
@@ -198,6 +207,8 @@ func bodyTransports(r *sim.Run) {
 		for i := 0; i < n; i++ {
 			if t.Chance(300) {
 				ts.ops = append(ts.ops, rtOp{sleep: sim.Pick(t, sleeps)})
+			} else if t.Chance(250) {
+				ts.ops = append(ts.ops, rtOp{get: sim.Pick(t, []string{"t0.example", "t1.example", "fresh.example"})})
 			} else {
 				ts.ops = append(ts.ops, rtOp{dest: sim.Pick(t, dests)})
 			}
@@ -213,7 +224,9 @@ func bodyTransports(r *sim.Run) {
 					return
 				}
 				r.Op()
-				if op.dest == "" {
+				if op.get != "" {
+					w.getTransport(ts, i, op.get)
+				} else if op.dest == "" {
 					if op.sleep > tripperLifetime {
 						r.Fault("clock_jump")
 					}
@@ -278,6 +291,32 @@ func (w *rtWorld) checkTransports(where string) {
 	r.State(fmt.Sprintf("transports=%s active=%d", strings.Join(ks, ","), w.active))
 	if len(ks) >= 3 {
 		r.Probe("three_or_more_transports_cached")
+	}
+}
+
+// getTransport asks the cache for the transport of one TLS name, as every
+// round trip does first. Sequentially, two such calls closer together than
+// the cache's lifetime are handed the same transport; so must concurrent ones.
+func (w *rtWorld) getTransport(ts *rtTask, i int, name string) {
+	r := w.r
+	w.mu.Lock()
+	w.used[name] = r.Now()
+	w.mu.Unlock()
+	// the cache stamps the transport somewhere between the start of the call
+	// and its return (the task may be parked at a lock boundary while the
+	// clock advances): an entry stamped no earlier than an earlier call's
+	// start cannot have been reaped before that start plus the lifetime
+	start := r.Now()
+	id := w.client.VerifGetTransport(name)
+	now := r.Now()
+	w.mu.Lock()
+	prev, had := w.handed[name]
+	w.handed[name] = handedOut{id: id, at: start, task: ts.name}
+	w.mu.Unlock()
+	w.tlog(ts, "t=%v %s: get#%d transport for %q -> %s", now, ts.name, i, name, id)
+	r.Probe("transport_get_or_create")
+	if had && now-prev.at < tripperLifetime && prev.id != id {
+		r.Violate("C19", "transport_cache", "two_transports_for_one_name", "%s was handed transport %s for %q %v after %s had been handed %s: a sequential execution hands out one transport per name until it is reaped", ts.name, id, name, now-prev.at, prev.task, prev.id)
 	}
 }
 
